@@ -43,4 +43,73 @@ theorem sameSet_perm_left (a a' b : List Nat) (h : a.Perm a') : sameSet a b = sa
 theorem attr_cell_order_independent (l l' : List GA.Asg) (hp : l.Perm l') (hd : GA.DistinctLines l) :
     GA.codeWinner l = GA.codeWinner l' := GA.codeWinner_perm l l' hp hd
 
+/-! ### Ordered containers keyed by symbols (GrcMasterTable.h ValueMap / ValueListMap)
+
+An ordered map is iterated in the order of its keys.  `iterate key es` is that order for the entries `es` (in whatever
+order they were inserted) under the key function `key`.  With the key a creation counter - a function of the source
+text - the iteration does not depend on anything else (`iterate_perm`); with the key an address it is whatever the
+allocator made it (`iterate_address_dependent`). -/
+
+def iterate {α : Type} (key : α → Nat) (es : List α) : List α := es.mergeSort (fun a b => decide (key a ≤ key b))
+
+/-- The iteration order is a function of the SET of entries and their keys: any insertion order gives the same
+    sequence, provided the keys are pairwise distinct (a creation counter is). -/
+theorem iterate_perm {α : Type} (key : α → Nat) (l l' : List α) (hp : l.Perm l')
+    (hinj : ∀ a ∈ l, ∀ b ∈ l, key a = key b → a = b) : iterate key l = iterate key l' := by
+  unfold iterate
+  have tr : ∀ a b c : α, decide (key a ≤ key b) = true → decide (key b ≤ key c) = true → decide (key a ≤ key c) = true := by
+    intro a b c h1 h2; simp only [decide_eq_true_eq] at *; omega
+  have tot : ∀ a b : α, (decide (key a ≤ key b) || decide (key b ≤ key a)) = true := by
+    intro a b; simp only [Bool.or_eq_true, decide_eq_true_eq]; omega
+  have s1 := List.pairwise_mergeSort tr tot l
+  have s2 := List.pairwise_mergeSort tr tot l'
+  have p1 := List.mergeSort_perm l (fun a b => decide (key a ≤ key b))
+  have p2 := List.mergeSort_perm l' (fun a b => decide (key a ≤ key b))
+  refine List.Perm.eq_of_pairwise (le := fun a b => decide (key a ≤ key b) = true) ?_ s1 s2 (p1.trans (hp.trans p2.symm))
+  intro a b ha hb h1 h2
+  simp only [decide_eq_true_eq] at h1 h2
+  have ha' : a ∈ l := p1.mem_iff.mp ha
+  have hb' : b ∈ l := hp.mem_iff.mpr (p2.mem_iff.mp hb)
+  exact hinj a ha' b hb' (by omega)
+
+/-- Same entries, same keys: the iteration is the same whatever else differs between two runs (addresses included). -/
+theorem iterate_congr {α : Type} (key key' : α → Nat) (l : List α) (h : ∀ a ∈ l, key a = key' a)
+    (hinj : ∀ a ∈ l, ∀ b ∈ l, key a = key b → a = b) : iterate key l = iterate key' l := by
+  unfold iterate
+  have tr : ∀ (k : α → Nat) (a b c : α), decide (k a ≤ k b) = true → decide (k b ≤ k c) = true → decide (k a ≤ k c) = true := by
+    intro k a b c h1 h2; simp only [decide_eq_true_eq] at *; omega
+  have tot : ∀ (k : α → Nat) (a b : α), (decide (k a ≤ k b) || decide (k b ≤ k a)) = true := by
+    intro k a b; simp only [Bool.or_eq_true, decide_eq_true_eq]; omega
+  have s1 := List.pairwise_mergeSort (tr key) (tot key) l
+  have s2 := List.pairwise_mergeSort (tr key') (tot key') l
+  have p1 := List.mergeSort_perm l (fun a b => decide (key a ≤ key b))
+  have p2 := List.mergeSort_perm l (fun a b => decide (key' a ≤ key' b))
+  have s2' : (l.mergeSort (fun a b => decide (key' a ≤ key' b))).Pairwise (fun a b => decide (key a ≤ key b) = true) := by
+    refine List.Pairwise.imp_of_mem ?_ s2
+    intro a b ha hb hab
+    rw [h a (p2.mem_iff.mp ha), h b (p2.mem_iff.mp hb)]; exact hab
+  refine List.Perm.eq_of_pairwise (le := fun a b => decide (key a ≤ key b) = true) ?_ s1 s2' (p1.trans p2.symm)
+  intro a b ha hb h1 h2
+  simp only [decide_eq_true_eq] at h1 h2
+  exact hinj a (p1.mem_iff.mp ha) b (p2.mem_iff.mp hb) (by omega)
+
+/-- The defect repaired by /repo d694336, as a witness: keyed by address, two allocators give two orders
+    (entries: the language ids of the two names of one feature setting). -/
+theorem iterate_address_dependent :
+    iterate (fun (lang : Nat) => if lang = 1033 then 100 else 200) [1033, 1036]
+      ≠ iterate (fun (lang : Nat) => if lang = 1033 then 300 else 200) [1033, 1036] := by
+  intro heq
+  have tr : ∀ (k : Nat → Nat) (a b c : Nat), decide (k a ≤ k b) = true → decide (k b ≤ k c) = true → decide (k a ≤ k c) = true := by
+    intro k a b c h1 h2; simp only [decide_eq_true_eq] at *; omega
+  have tot : ∀ (k : Nat → Nat) (a b : Nat), (decide (k a ≤ k b) || decide (k b ≤ k a)) = true := by
+    intro k a b; simp only [Bool.or_eq_true, decide_eq_true_eq]; omega
+  have s2 := List.pairwise_mergeSort (tr (fun lang => if lang = 1033 then 300 else 200)) (tot _) [1033, 1036]
+  have e1 : iterate (fun (lang : Nat) => if lang = 1033 then 100 else 200) [1033, 1036] = [1033, 1036] := by
+    unfold iterate
+    apply List.mergeSort_of_pairwise
+    simp
+  unfold iterate at heq e1
+  rw [← heq, e1] at s2
+  simp at s2
+
 end Grc.Det
